@@ -279,6 +279,29 @@ def build_portable_encoding(log=sys.stderr):
     return obj
 
 
+def build_gcc_object(rel, log=sys.stderr):
+    """One library source compiled by gcc -O2 (no sanitizer), to be linked in front of the clang-built archive.
+
+    Some behaviour depends on what the optimiser makes of the source: gcc removes the stores that erase a small-block
+    page's tags right before free() as dead stores, clang 14 keeps them (DESIGN 9.2, sba-freed-page-keeps-tags).  The
+    project itself is built with gcc, so a target can ask for the file as gcc builds it."""
+    src = os.path.join(REPO, rel)
+    flags = ["-g", "-O2", "-fPIC", "-fno-omit-frame-pointer", "-DNDEBUG", "-std=gnu99", "-w"] + DEFINES
+    if rel.endswith("encoding_avx2.c"):
+        flags += ["-mavx", "-mavx2"]
+    key = sha("gcc " + " ".join(flags), file_digest(src), header_digest())
+    obj = os.path.join(BUILD, "obj", "gcc-%s-%s.o" % (os.path.basename(rel).replace(".c", ""), key))
+    if not os.path.exists(obj):
+        os.makedirs(os.path.dirname(obj), exist_ok=True)
+        rc, o = _compile_one((["gcc"] + flags + includes() + ["-c", src], obj))
+        if rc != 0:
+            log.write(o)
+            raise SystemExit("BUILD-ERROR: gcc build of %s failed" % rel)
+    else:
+        _touch(obj)
+    return obj
+
+
 def engine_digest(with_sched=False):
     h = hashlib.sha256()
     for pat in ("engine/*.hpp", "engine/*.h", "engine/refs/*") + (("engine/detsched/*",) if with_sched else ()):
@@ -298,6 +321,8 @@ def build_target(t, log=sys.stderr):
     extra = []
     if t.get("portable_encoding"):
         extra.append(build_portable_encoding(log))
+    for rel in t.get("gcc_objects", []):
+        extra.append(build_gcc_object(rel, log))
     flags = [CXX, "-std=gnu++17", "-w"] + fl["cxx"] + t.get("cxxflags", []) + DEFINES + includes() + \
             ["-I" + os.path.join(ROOT, "engine"), "-I" + REPO]
     ld = list(fl["ld"])
